@@ -269,7 +269,7 @@ def run(ctx):
         cs = rng.choice(CHARSETS)
         n = rng.randrange(1, 7)
         events = [gen_event(rng, cs) for _ in range(n)]
-        delays = [rng.choice([0, 0, 0.5, 1.0, 1.5, 2.5, 3.0]) for _ in range(n)]
+        delays = [rng.choice([0, 0, 0.5, 1.0, 1.5, 2.5, 3.0, 3.5, 7.25, 40.0]) for _ in range(n)]  # also producers silent for many ping intervals
         asgi_stream(ctx, events, delays, cs)
         ctx.case(("asgi", repr(events), cs, tuple(delays)))
         if i < 1:
